@@ -22,7 +22,8 @@ HEADER = ('import sys, io, warnings\n'
           '    raise ExitTestException()\n\n')
 
 DIRECTIVES = ['# xdoctest: +SKIP', '# xdoctest: +REQUIRES(%s)' % gd.UNMET_A, '# xdoctest: -REPORT_NDIFF',
-              '# xdoctest: -REPORT_CDIFF', '# xdoctest: -ELLIPSIS', '# xdoctest: +IGNORE_WANT']
+              '# xdoctest: -REPORT_CDIFF', '# xdoctest: -ELLIPSIS', '# xdoctest: +IGNORE_WANT',
+              '# xdoctest: -REQUIRES(%s)' % gd.UNMET_B]
 
 
 def item(kind, *args, **kw):
@@ -179,3 +180,20 @@ def gen_history(rng, ndocs, maxlen=8, raise_prob=0.0):
     for _ in range(n):
         h.append((rng.randrange(ndocs), 'e' if rng.random() < raise_prob else 'r'))
     return h
+
+
+DEFAULTS = [{'bools': {'IGNORE_WHITESPACE': True}, 'req': None},
+            {'bools': {'ELLIPSIS': False}, 'req': None},
+            {'bools': {'NORMALIZE_WHITESPACE': False, 'IGNORE_WHITESPACE': True}, 'req': None},
+            {'bools': {'IGNORE_WHITESPACE': True}, 'req': []},
+            {'bools': {}, 'req': []},
+            {'bools': {'NORMALIZE_REPR': False}, 'req': [gd.UNMET_B]},
+            {'bools': {'SKIP': True}, 'req': None}]
+
+
+def gen_defaults(rng, prob=0.4):
+    """config['default_runtime_state'] of the whole history: None (empty) or user defaults — booleans and,
+    through the API, a REQUIRES set"""
+    if rng.random() >= prob:
+        return None
+    return rng.choice(DEFAULTS[:5] * 3 + DEFAULTS[5:])
